@@ -18,9 +18,11 @@ import (
 // channels and synchronisation primitives skipped. Two graphs with equal
 // dumps are identical up to addresses (and up to renamed opaque IDs).
 type Dumper struct {
-	sb    strings.Builder
-	ptrs  map[unsafe.Pointer]int
-	names map[string]string
+	// SkipFields names struct fields that are left out wherever they occur (instance counters, statistics).
+	SkipFields map[string]bool
+	sb         strings.Builder
+	ptrs       map[unsafe.Pointer]int
+	names      map[string]string
 	// SkipTypes lists type-name prefixes (pkgpath.Name) that are not dumped.
 	SkipTypes []string
 	// RenameIDs renames strings that look like random upload IDs (64 hex
@@ -125,9 +127,9 @@ func (d *Dumper) loadable(v reflect.Value, depth int) bool {
 		type ent struct{ k, v string }
 		var ents []ent
 		m.Range(func(k, val any) bool {
-			kd := &Dumper{ptrs: d.ptrs, names: d.names, SkipTypes: d.SkipTypes, RenameIDs: d.RenameIDs}
+			kd := &Dumper{ptrs: d.ptrs, names: d.names, SkipTypes: d.SkipTypes, SkipFields: d.SkipFields, RenameIDs: d.RenameIDs}
 			kd.value(reflect.ValueOf(k), depth+1)
-			vd := &Dumper{ptrs: d.ptrs, names: d.names, SkipTypes: d.SkipTypes, RenameIDs: d.RenameIDs}
+			vd := &Dumper{ptrs: d.ptrs, names: d.names, SkipTypes: d.SkipTypes, SkipFields: d.SkipFields, RenameIDs: d.RenameIDs}
 			vd.value(reflect.ValueOf(val), depth+1)
 			ents = append(ents, ent{kd.sb.String(), vd.sb.String()})
 			return true
@@ -265,7 +267,7 @@ func (d *Dumper) value(v reflect.Value, depth int) {
 				k := it0.Key().String()
 				if len(k) == 64 && hexID.MatchString(k) {
 					if _, ok := d.names[k]; !ok {
-						sd := &Dumper{ptrs: map[unsafe.Pointer]int{}, names: map[string]string{}, SkipTypes: d.SkipTypes, RenameIDs: true, blank: true}
+						sd := &Dumper{ptrs: map[unsafe.Pointer]int{}, names: map[string]string{}, SkipTypes: d.SkipTypes, SkipFields: d.SkipFields, RenameIDs: true, blank: true}
 						sd.value(it0.Value(), depth+1)
 						ps = append(ps, pend{k, sd.sb.String()})
 					}
@@ -278,7 +280,7 @@ func (d *Dumper) value(v reflect.Value, depth int) {
 		}
 		it := v.MapRange()
 		for it.Next() {
-			kd := &Dumper{ptrs: d.ptrs, names: d.names, SkipTypes: d.SkipTypes, RenameIDs: d.RenameIDs}
+			kd := &Dumper{ptrs: d.ptrs, names: d.names, SkipTypes: d.SkipTypes, SkipFields: d.SkipFields, RenameIDs: d.RenameIDs}
 			kd.value(it.Key(), depth+1)
 			ents = append(ents, ent{k: kd.sb.String()})
 			_ = d.AutoIDs // map keys are never auto-named: their order would depend on the random value
@@ -289,7 +291,7 @@ func (d *Dumper) value(v reflect.Value, depth int) {
 		vals := map[string]reflect.Value{}
 		it = v.MapRange()
 		for it.Next() {
-			kd := &Dumper{ptrs: d.ptrs, names: d.names, SkipTypes: d.SkipTypes, RenameIDs: d.RenameIDs}
+			kd := &Dumper{ptrs: d.ptrs, names: d.names, SkipTypes: d.SkipTypes, SkipFields: d.SkipFields, RenameIDs: d.RenameIDs}
 			kd.value(it.Key(), depth+1)
 			vals[kd.sb.String()] = it.Value()
 		}
@@ -309,6 +311,9 @@ func (d *Dumper) value(v reflect.Value, depth int) {
 		for i := 0; i < v.NumField(); i++ {
 			f := v.Field(i)
 			ft := t.Field(i)
+			if d.SkipFields[ft.Name] {
+				continue
+			}
 			stateful := ft.Type.PkgPath() == "sync" && ft.Type.Name() == "Map" || ft.Type.PkgPath() == "sync/atomic"
 			if !stateful && (d.skip(ft.Type) || ft.Type.Kind() == reflect.Func || ft.Type.Kind() == reflect.Chan) {
 				continue
